@@ -9,13 +9,17 @@ Database.getTagAssignments, os.listdir of every ups_db) lists what the files say
 A case is one history:
   {"flavors": [f1, f2], "mode": "fork" | "proc" | "inst", "ops": [op, ...]}
   op = {"k": "D", "f": flavor, "s": None|"s1"|"s2", "F": force, "N": noaction, "n": product, "v": version,
-        "d": None|"A"|"B" (directory outside the stacks) | "H1"|"H2" (directory inside stack s1 / s2),
+        "d": None|"A"|"B" (directory outside the stacks) | "H1"|"H2" (directory inside the first / second stack)
+             | "P1"|"P2" (directory BESIDE the first / second stack, whose path begins with the characters of the
+               stack's own path: <stack>-extras/..., <stack>_b/...),
         "tb": None (default table) | "alt" (other path, other text) | "same" (other path, same text as the default
               table of that directory) | "fix" (a path that does not depend on the directory) | "none" (tablefile
               none) | "stream" (an open file with text variant "tx": interned),
         "L": None | [[source variant, path below the extra directory], ...] (external files), "t": None|tag}
        "A" assignTag(t, n, v)   "U" unassignTag(t, n, v|None)   "X" undeclare(n, v|None)
        "T" undeclare(n, v|None, tag=t, undeclareVersionAndTag=both)   "R" remove(n, v)
+"stacks": the names of the two stacks on EUPS_PATH when they are not s1, s2 (names that are prefixes of each other);
+a tag outside TAGS (UNKNOWN_TAGS) is a tag the installation does not recognise.
 "ro": stacks that are read-only (directory and ups_db mode 0555; the whole history then runs under uid nobody,
 every operation in a forked child), "fam": label of the generator family (histogram only).
 mode: fork = every operation in its own forked child with a new Eups; proc = one process, a new Eups per
@@ -42,8 +46,21 @@ MODES = ["fork", "proc", "inst"]
 
 # ------------------------------------------------------------------ canonical names
 
-DIRVARS_ALL = ["A", "B", "H1", "H2"]
+DIRVARS_ALL = ["A", "B", "H1", "H2", "P1", "P2"]
 HOME = {"H1": "s1", "H2": "s2"}
+HOME_IDX = {"H1": 0, "H2": 1}
+SIBLING = {"P1": (0, "-extras"), "P2": (1, "_b")}   # beside the stack: its path plus characters other than a slash
+UNKNOWN_TAGS = ["stabel", "nightly"]               # not registered with the installation
+# names of the two stacks: the usual ones, and names one of which is a prefix of the other
+STACK_SETS = [["s1", "s12"], ["s12", "s1"], ["s2x", "s2"]]
+CUR = list(STACKS)                                  # the stacks of the history being generated / run / judged
+
+
+def use_stacks(case=None):
+    """the stack names of this history (every entry point of a history calls this first)"""
+    CUR[:] = (case or {}).get("stacks") or STACKS
+    return CUR
+
 STREAMS = {"t1": "# stream one\nsetupOptional(zzz)\n", "t2": "# stream two\n", "t3": "# no newline\n# at the end"}
 EXTRAS = {"x1": "extra one\n", "x2": "extra two\n"}
 NOBODY = 65534
@@ -51,9 +68,19 @@ NOBODY = 65534
 
 def cdir(n, v, d):
     """canonical (root-independent) product directory"""
-    if d in HOME:
-        return "/%s/prod/%s-%s-H" % (HOME[d], n, v)
+    if d in HOME_IDX:
+        return "/%s/prod/%s-%s-H" % (CUR[HOME_IDX[d]], n, v)
+    if d in SIBLING:
+        return "/%s%s/prod/%s-%s-P" % (CUR[SIBLING[d][0]], SIBLING[d][1], n, v)
     return "/prod/%s-%s-%s" % (n, v, d)
+
+
+def dvar_of(path):
+    """the directory variant a canonical product directory was made from"""
+    for d in DIRVARS_ALL:
+        if path.endswith("-" + d[0]) and cdir("n", "v", d).rsplit("/", 1)[0] == path.rsplit("/", 1)[0]:
+            return d
+    return path.rsplit("-", 1)[1]
 
 
 def ctable(n, v, d, tb):
@@ -111,18 +138,21 @@ def extra_dir(s, f, n, v):
 
 # ------------------------------------------------------------------ generator
 
-def gen_history(rng, length, flavors=None, mode=None, bias=None, ro=None, fam="rand"):
+def gen_history(rng, length, flavors=None, mode=None, bias=None, ro=None, fam="rand", stacks=None):
     """a random history; the specification below is run alongside so that about 70 % of the operations are valid
     for the state they meet (the rest name products, versions or tags that are not there)"""
     flavors = flavors or rng.choice(FLAVOR_PAIRS)
     mode = mode or rng.choice(MODES)
     bias = bias or {}
     p_tb, p_home, p_L = bias.get("tb", 0.10), bias.get("home", 0.08), bias.get("L", 0.04)
+    p_sib, p_unk = bias.get("sib", 0.05), bias.get("unk", 0.04)
+    use_stacks({"stacks": stacks})
+    S1, S2 = CUR
     decls, tags = {}, {}
     ops = []
     for _ in range(length):
         f = rng.choice(flavors)
-        s = rng.choice([None, None, "s1", "s2"])
+        s = rng.choice([None, None, S1, S2])
         o = {"f": f, "s": s, "F": rng.random() < 0.12, "N": rng.random() < 0.06}
         known = [k for k in decls if k[3] == f and (s is None or k[0] == s)]
         tk = [k for k in tags if k[3] == f and (s is None or k[0] == s)]
@@ -133,9 +163,7 @@ def gen_history(rng, length, flavors=None, mode=None, bias=None, ro=None, fam="r
             if aim and known and rng.random() < 0.4:             # redeclare something that exists
                 k = rng.choice(known)
                 o["n"], o["v"] = k[1], k[2]
-                same = decls[k][0].rsplit("-", 1)[1]
-                if same == "H":
-                    same = "H" + decls[k][0][2]
+                same = dvar_of(decls[k][0])
                 o["d"] = rng.choice([same, same, "A", "B", None])
                 o["t"] = rng.choice([None, "current", "stable", "beta"]) if o["d"] else rng.choice(TAGS)
             else:
@@ -145,6 +173,8 @@ def gen_history(rng, length, flavors=None, mode=None, bias=None, ro=None, fam="r
             o["tb"] = "alt" if (o["d"] and rng.random() < 0.12) else None
             if o["d"] and rng.random() < p_home:
                 o["d"] = rng.choice(["H1", "H2", "H2"])
+            if o["d"] and rng.random() < p_sib:
+                o["d"] = rng.choice(["P1", "P2"])
             if rng.random() < p_tb:
                 o["tb"] = rng.choice(["same", "fix", "none", "stream", "stream"])
                 if o["tb"] == "stream":
@@ -195,9 +225,13 @@ def gen_history(rng, length, flavors=None, mode=None, bias=None, ro=None, fam="r
                 o["n"], o["v"] = k[1], k[2]
             else:
                 o["n"], o["v"] = rng.choice(NAMES), rng.choice(VERSIONS)
+        if o["k"] in "DAUT" and rng.random() < p_unk:
+            o["t"] = rng.choice(UNKNOWN_TAGS)      # a tag that is not recognised: the command is refused
         _, decls, tags = spec_step(decls, tags, o, ro=ro or [])
         ops.append(o)
     case = {"flavors": flavors, "mode": mode, "ops": ops, "fam": fam}
+    if stacks:
+        case["stacks"] = list(stacks)
     if ro:
         case["ro"] = list(ro)
         case["mode"] = "fork"
@@ -362,6 +396,96 @@ def gen_stack_choice(rng):
     return out
 
 
+def gen_prefix_dirs(rng):
+    """product directories beside a stack (the path of the stack followed by other characters), and inside a stack
+    whose name is a prefix of / has as a prefix the name of the other stack; -Z or not; then the other flavor declared
+    in the same version file (a rewrite of the shared file must keep the first record), before or after"""
+    out = []
+    i = 0
+    for stacks in [None] + STACK_SETS:
+        S = stacks or STACKS
+        for d in ("P1", "P2", "H1", "H2"):
+            if stacks is None and d in HOME_IDX:
+                continue                                   # gen_stack_choice has these
+            for s in (None, S[0], S[1]):
+                i += 1
+                f1, f2 = rng.choice(FLAVOR_PAIRS)
+                n = NAMES[i % 3]
+                first = _D(f1, n, "1.0", s=s, d=d, t=[None, "stable"][i % 2])
+                other = _D(f2, n, "1.0", s=s, d=["A", "H1", "P2"][i % 3])
+                ops = [first, other] if i % 2 else [other, first]
+                ops += [_D(f1, n, "2.0", s=s, d=d, tb=["alt", "stream", None][i % 3], tx="t2"),
+                        _D(f1, n, "1.0", s=s, d=d),                       # the same again: no difference
+                        _op("A", f1, n, "2.0", t="beta", s=s),
+                        _D(f2, n, "2.0", s=s, d="B"),
+                        _op("X", f1, n, "1.0", s=s)]
+                c = {"flavors": [f1, f2], "mode": MODES[i % 3], "ops": ops,
+                     "fam": "prefix/stacks=%s/dir=%s/Z=%s" % ("+".join(S), {"P": "beside", "H": "inside"}[d[0]] + d[1],
+                                                               "-" if s is None else str(S.index(s) + 1))}
+                if stacks:
+                    c["stacks"] = list(stacks)
+                out.append(c)
+    return out
+
+
+def gen_unknown_tags(rng):
+    """a command naming a tag that is not recognised, for every command that takes a tag and every state it can meet
+    (new product, new version, new flavor of a declared version, declared version; table from a stream, external
+    files, force, noaction); then the history goes on: the first version declared of the product becomes current"""
+    out = []
+    i = 0
+    kinds = ["D-new-product", "D-new-version", "D-new-flavor", "D-redeclare", "D-conflict", "D-force", "D-noaction",
+             "D-stream", "D-ext", "D-nodir", "A", "A-nothing", "U-v", "U-none", "T-v", "T-none", "Tboth-v", "Tboth-none",
+             "Tboth-nothing"]
+    for kind in kinds:
+        for s in (None, "s1", "s2"):
+            i += 1
+            f1, f2 = rng.choice(FLAVOR_PAIRS)
+            n, m = NAMES[i % 3], NAMES[(i + 1) % 3]
+            u = UNKNOWN_TAGS[i % 2]
+            ops = [_D(f1, n, "1.0", s=s, d="A"), _D(f1, n, "2.0", s=s, d="A", t="stable"), _D(f2, n, "2.0", s=s, d="B")]
+            if kind == "D-new-product":
+                bad = _D(f1, m, "1.0", s=s, d="A", t=u)
+            elif kind == "D-new-version":
+                bad = _D(f1, n, "3.0", s=s, d="A", t=u)
+            elif kind == "D-new-flavor":
+                bad = _D(f2, n, "1.0", s=s, d="B", t=u)
+            elif kind == "D-redeclare":
+                bad = _D(f1, n, "2.0", s=s, d="A", t=u)
+            elif kind == "D-conflict":
+                bad = _D(f1, n, "2.0", s=s, d="B", t=u)
+            elif kind == "D-force":
+                bad = _D(f1, n, "2.0", s=s, d="B", t=u, F=True)
+            elif kind == "D-noaction":
+                bad = _D(f1, n, "3.0", s=s, d="A", t=u, N=True)
+            elif kind == "D-stream":
+                bad = _D(f1, n, "3.0", s=s, d="A", t=u, tb="stream", tx="t1")
+            elif kind == "D-ext":
+                bad = _D(f1, m, "1.0", s=s, d="A", t=u, L=[["x1", "etc/x.txt"]])
+            elif kind == "D-nodir":
+                bad = _D(f1, n, "2.0", s=s, d=None, t=u)
+            elif kind == "A":
+                bad = _op("A", f1, n, "1.0", t=u, s=s)
+            elif kind == "A-nothing":
+                bad = _op("A", f1, m, "1.0", t=u, s=s)
+            elif kind.startswith("U"):
+                bad = _op("U", f1, n, "2.0" if kind.endswith("-v") else None, t=u, s=s)
+            elif kind == "Tboth-nothing":
+                bad = _op("T", f1, m, None, t=u, s=s, both=True)
+            elif kind.startswith("Tboth"):
+                bad = _op("T", f1 if kind.endswith("-v") else f2, n, "2.0" if kind.endswith("-v") else None, t=u, s=s, both=True)
+            else:
+                bad = _op("T", f1, n, "2.0" if kind.endswith("-v") else None, t=u, s=s, both=False)
+            ops.append(bad)
+            ops += [_D(f1, m, "2.0", s=s, d="A"),                      # the first version of m ever declared: current
+                    _D(f1, m, "1.0", s=s, d="A"),
+                    _op("U", f1, n, None, t="stable", s=s),
+                    _op("X", f1, n, "2.0", s=s)]
+            out.append({"flavors": [f1, f2], "mode": MODES[i % 3], "ops": ops,
+                        "fam": "unknown-tag/%s/Z=%s" % (kind, s or "-")})
+    return out
+
+
 # ------------------------------------------------------------------ model side
 
 def _o(x):
@@ -393,8 +517,9 @@ def op_line(o):
 
 def hist_line(case, pinned=False):
     """a request to the extended model (Model/DbExt.v); pinned is accepted for the callers of old and ignored"""
+    use_stacks(case)
     univ = ";".join([",".join(NAMES), ",".join(TAGS), ",".join(case["flavors"])])
-    return "\t".join(["xhist", ",".join(STACKS), ",".join(case.get("ro") or []), common.enc_env(static_texts(case)),
+    return "\t".join(["xhist", ",".join(CUR), ",".join(case.get("ro") or []), common.enc_env(static_texts(case)),
                       "|".join(op_line(o) for o in case["ops"]), univ])
 
 
@@ -442,7 +567,7 @@ def _quiet():
 
 
 def setup_world(root, ro=()):
-    for s in STACKS + ["user"]:
+    for s in CUR + ["user"]:
         os.makedirs(os.path.join(root, s, "ups_db"), exist_ok=True)
     os.makedirs(root + "/prod/tables", exist_ok=True)
     os.makedirs(root + "/prod/extra", exist_ok=True)
@@ -456,7 +581,7 @@ def setup_world(root, ro=()):
 
 
 def unprotect(root):
-    for s in STACKS:
+    for s in CUR:
         for p in (os.path.join(root, s), os.path.join(root, s, "ups_db")):
             if os.path.isdir(p):
                 os.chmod(p, 0o755)
@@ -485,7 +610,7 @@ def ensure_products(root):
 
 
 def world_environ(root, flavor):
-    return common.scrubbed_environ({"EUPS_PATH": ":".join(os.path.join(root, s) for s in STACKS),
+    return common.scrubbed_environ({"EUPS_PATH": ":".join(os.path.join(root, s) for s in CUR),
                                     "EUPS_USERDATA": os.path.join(root, "user"), "EUPS_FLAVOR": flavor})
 
 
@@ -574,7 +699,7 @@ def read_state(root, flavors):
         return p[len(root):] if p.startswith(root + "/") else p
 
     st = {"decls": [], "tags": [], "dirs": [], "vf": [], "cf": [], "resolve": [], "xf": []}
-    for s in STACKS:
+    for s in CUR:
         dbp = os.path.join(root, s, "ups_db")
         db = e.db.Database(dbp)
         for n in sorted(os.listdir(dbp)):
@@ -623,6 +748,7 @@ def _as_nobody(case):
 def impl_history(case):
     """runs in a pool worker; returns the per-operation observations"""
     _eups()
+    use_stacks(case)
     if case.get("ro") and not case.get("ro_child") and os.getuid() == 0:
         # permissions mean nothing to root: the whole history (operations and readers) runs under uid nobody
         r = common.in_child(_as_nobody, case, timeout=600)
@@ -689,16 +815,21 @@ def impl_one(case):
 # It is evaluated on what the fresh reader of the *implementation* reported before the operation and compared
 # with what it reports afterwards.
 
-def spec_step(decls, tags, o, path=STACKS, ro=(), xf=None, info=None):
+def spec_step(decls, tags, o, path=None, ro=(), xf=None, info=None):
     """-> (outcome class, decls', tags').  decls: {(s,n,v,f): (dir, table)}, tags: {(s,n,t,f): v}; ro: read-only
     stacks; xf: {path: text} of the copies below the databases as the reader saw them before the operation; info, when
     given, receives what a declaration has to leave below its extra directory ("xdir", "copies": {path: text})"""
     decls, tags = dict(decls), dict(tags)
     xf = xf or {}
+    path = list(path or CUR)
     f, n = o["f"], o["n"]
     fls = [f, "generic"]
     roots = [o["s"]] if o["s"] else list(path)
     unchanged = lambda oc: (oc, decls, tags)
+    if o.get("t") is not None and o["t"] not in TAGS:
+        # not a tag of this installation: no assignment of it can exist, and the command cannot be carried out as
+        # typed.  The property says nothing about HOW it ends; whatever is refused changes nothing (oracle)
+        return unchanged("error")
 
     def exact(v, fl=f, rs=None):
         for s in (rs or roots):
@@ -893,16 +1024,29 @@ def _lines(x):
 def oracle(case, obs):
     """first operation at which the implementation departs from the property: (index, kind, expected, what) or None"""
     prev = EMPTY
+    use_stacks(case)
     for i, (o, st) in enumerate(zip(case["ops"], obs)):
         d0, t0 = state_maps(prev)
         d1, t1 = state_maps(st)
         if len(d1) != len(st["decls"]) or len(t1) != len(st["tags"]):
             return i, "reader-duplicate", None, "the reader lists a declaration or a tag twice"
+        # whatever the command and whatever the reason: a command that raises has changed nothing -- what the fresh
+        # reader lists (declarations, tags, copies kept with them) and the listing of every ups_db are as before
+        if st["out"] != "ok":
+            for k in ("decls", "tags", "dirs", "vf", "cf", "xf"):
+                if st[k] != prev[k]:
+                    return i, "refused-changed", prev[k], \
+                        "the command raised (%s) and yet %s changed: new %s, gone %s" % (
+                            st["out"], k, [x for x in st[k] if x not in prev[k]], [x for x in prev[k] if x not in st[k]])
         x0, x1 = dict(map(tuple, prev["xf"])), dict(map(tuple, st["xf"]))
         info = {}
         eo, ed, et = spec_step(d0, t0, o, ro=case.get("ro") or [], xf=x0, info=info)
         if eo == "unmodelled":
             return None                    # outside what the check covers: the rest of the history is not judged
+        if eo == "error":
+            if st["out"] == "ok":
+                return None                # carried out in some way the property does not speak of: not judged
+            eo = st["out"]                 # raised: nothing may have changed (ed, et are the maps of before)
         # stated clauses first, so that the kind names the clause that broke
         for k, v in t1.items():
             if (k[0], k[1], v, k[3]) not in d1:
@@ -948,7 +1092,7 @@ def oracle(case, obs):
         # resolving a tag yields the first stack's assignment
         for n, t, f, s, v in st["resolve"]:
             exp = None
-            for s_ in STACKS:
+            for s_ in CUR:
                 vv = t1.get((s_, n, t, f))
                 if vv is not None and (s_, n, vv, f) in d1:
                     exp = (s_, vv)
@@ -1041,7 +1185,7 @@ def decl_class(o, prev):
     version was already declared for that flavor"""
     redecl = any(r[1] == o["n"] and r[2] == o["v"] and r[3] == o["f"] for r in prev["decls"])
     return "D/table=%s/dir=%s/Z=%s/force=%d/redeclare=%d/ext=%d" % (
-        o.get("tb") or "default", {None: "none", "A": "out", "B": "out"}.get(o["d"], "in-stack"),
+        o.get("tb") or "default", {None: "none", "A": "out", "B": "out", "P1": "beside-stack", "P2": "beside-stack"}.get(o["d"], "in-stack"),
         "y" if o["s"] else "n", bool(o["F"]), redecl, bool(o.get("L")))
 
 
@@ -1057,6 +1201,11 @@ def process(ctx, results, pinned=False, budget=[6]):
             prev = st
         if c.get("ro"):
             ctx.bump("history/read-only=%s" % "+".join(c["ro"]))
+        if c.get("stacks"):
+            ctx.bump("history/stack-names=%s" % "+".join(c["stacks"]))
+        for o, st in zip(c["ops"], i):
+            if o.get("t") is not None and o["t"] not in TAGS:
+                ctx.bump("unknown-tag/%s%s/%s" % (o["k"], "both" if o.get("both") else "", st["out"].split(":")[0]))
         if any(mm["out"] == "unmodelled" for mm in m):
             ctx.bump("history/left-the-model")
         if dis is None:
@@ -1130,6 +1279,7 @@ def run(ctx):
         process(ctx, evaluate(ctx, corp))
         # directed families: the same shapes on every seed (the seed picks flavors, not shapes)
         directed = gen_forced_redeclarations(ctx.rng) + gen_two_flavor_tags(ctx.rng) + gen_stack_choice(ctx.rng)
+        directed += gen_prefix_dirs(ctx.rng) + gen_unknown_tags(ctx.rng)
         process(ctx, evaluate(ctx, directed))
         nh = ctx.size(420, 3000)
         lo, hi = 5, ctx.size(25, 60)
@@ -1143,6 +1293,12 @@ def run(ctx):
                   for _ in range(ctx.size(40, 300))]
         cases += [gen_history(rng, rng.randint(4, 10), bias={"tb": 0.2, "home": 0.4}, ro=rng.choice([["s1"], ["s1"], ["s2"]]),
                               fam="rand-readonly") for _ in range(ctx.size(24, 200))]
+        # stacks whose names are prefixes of each other, product directories inside them and beside them
+        cases += [gen_history(rng, rng.randint(4, 12), bias={"sib": 0.35, "home": 0.3, "tb": 0.15}, fam="rand-prefix",
+                              stacks=rng.choice(STACK_SETS)) for _ in range(ctx.size(40, 300))]
+        # commands naming tags that are not recognised
+        cases += [gen_history(rng, rng.randint(4, 12), bias={"unk": 0.3, "tb": 0.2, "L": 0.1}, fam="rand-unknown-tag")
+                  for _ in range(ctx.size(40, 300))]
         for c in cases[:2]:
             ctx.sample(c)
         for k in range(0, len(cases), 400):
